@@ -46,6 +46,14 @@ def cases(rng, tier):
     # the object made by sb_trajectory_init_empty (on memory full of garbage)
     yield ("traj f empty p00000000,p3f800000,pbf800000,p7f800000,d00000000", "init-empty")
     yield ("traj h empty p3f800000,v3f800000,a3f800000,d00000000,p00000000", "init-empty")
+    # the last segment has zero duration (a final jump): the end helper reports its end point; positions are probed
+    # strictly before it only
+    for i in range(40 if tier == "thorough" else 12):
+        tr = G.rand_traj(rng, nseg=rng.choice([1, 2, 3]))
+        tr["segs"].append(dict(dur=0, x=[rng.randint(-6000, 6000)], y=rng.choice([[], [rng.randint(-6000, 6000)]]), z=[rng.randint(0, 6000)], yaw=rng.choice([[], [900]])))
+        bs = G.boundaries(tr)
+        ts = [G.f32(bs[-1] / 1000.0 * f) for f in (0.1, 0.5, 0.9)] + [0.0]
+        yield ("traj f %s %s,d00000000" % (hexs(G.encode(tr)), ",".join("p" + fhex(t) for t in ts)), "trailing-zero-duration")
     # blocks longer than 64 KiB: segments, boundaries and the end beyond byte offset 65536
     for i in range(10 if tier == "thorough" else 3):
         tr = G.rand_traj(rng, nseg=rng.choice([2, 3, 5]))
